@@ -45,6 +45,17 @@ def dstep (s : Backoff) (toks : List String) : Backoff × String :=
     | _, _, _ => (s, "bad-op")
   | ["reset", "default"] => let b := init policyDefault; (b, "ok " ++ showState b)
   | ["reset", "never"] => let b := init policyNever; (b, "ok " ++ showState b)
+  | ["connect", lim] =>
+    -- the harness uses 1 ms initial / 4 ms maximum delays; a case may start with this op
+    match lim.toNat? with
+    | some l =>
+      if l < 64 then
+        let p : Policy := { maxSleep := Dur.ofMillis 4, limit := some l, initial := Dur.ofMillis 1 }
+        match connectAttempts false p (l + 2) (init p) 0 with
+        | some n => (s, s!"ok gaveup=1 attempts={n}")
+        | none => (s, "ok gaveup=0")
+      else (s, "bad-op")
+    | none => (s, "bad-op")
   | ["next"] =>
     match next s with
     | (.panic, s') => (s', "panic")
